@@ -467,6 +467,14 @@ class C11(Prop):
                 for k in base:
                     if k not in got and k != "table_properties":
                         out.fail("body-key-lost:" + k, "mode %s: key %r disappears when clauses are added; %r" % (mode, k, ddl))
+                # a COMMENT text is a value, not a name: normalize_names=True must leave it as written, double-quoted or not
+                if mode != "sql" and isinstance(want_top.get("comment"), str):
+                    rn = loader.try_parse(ddl, output_mode=mode, normalize_names=True)
+                    out.parses += 1
+                    out.label("comment_under_normalize_names")
+                    if rn[0] != "ok" or len(rn[1]) != 1 or rn[1][0].get("comment") != want_top["comment"]:
+                        out.fail("clause-value-normalized:comment", "mode %s normalize_names=True: comment expected %r got %r; %r" % (
+                            mode, want_top["comment"], rn[1][0].get("comment") if rn[0] == "ok" and len(rn[1]) == 1 else rn[:3], ddl))
         return out
 
 
